@@ -14,6 +14,7 @@ Reading guide
 import CBV.Lemmas.C03Calc
 import CBV.Lemmas.C03Geom
 import CBV.Lemmas.C03Mono
+import CBV.Lemmas.C03Hist
 
 namespace CBV.C03
 
@@ -691,6 +692,48 @@ theorem T_C03_invert_start_c2c {L s r : ℚ} {o : Oracle} {res : Vals}
 example : TOL < absR ((11 : ℚ) / 10 - 1) ∧ TOL < absR (1 / ((11 : ℚ) / 10) - 1) ∧
     returned (calculate T0 1 { count := some 8 } { end_ := some (1 / 10), c2c := some (1 / (11 / 10)) }) =
       some (some 8, some (1 / (19487171 / 10000000))) := by decide +kernel
+
+/-! ### 7b. histories on one `Chop` object: `calculate` keeps no memory -/
+
+/-- Every `calculate` inside a history of calls on one object answers exactly what a fresh chop with the current
+    parameter record answers on that length; and the step leaves no trace: the record afterwards, and every later
+    answer, are those of the history without it. -/
+theorem T_C03_history_calc (v : Vals) (pre post : List Step) (t : Tol) (L : ℚ) (o : Oracle) :
+    (runHistory v (pre ++ .eval t L o :: post)).2 =
+        (runHistory v pre).2 ++ some (calculate t L o (runHistory v pre).1) :: (runHistory (runHistory v pre).1 post).2 ∧
+    (runHistory v (pre ++ .eval t L o :: post)).1 = (runHistory v (pre ++ post)).1 ∧
+    (runHistory v (pre ++ post)).2 = (runHistory v pre).2 ++ (runHistory (runHistory v pre).1 post).2 := by
+  simp only [runHistory_append, runHistory, and_self]
+
+/-- Without attribute assignments the record an object holds after a history is the original one after an even
+    number of inversions and the inverted one after an odd number — whatever evaluations happened in between. -/
+theorem T_C03_history_state {v w : Vals} (h : invert v = .ok w) (steps : List Step) (hna : noAssign steps = true) :
+    (runHistory v steps).1 = (if flipped steps then w else v) :=
+  (runHistory_state h steps hna).1
+
+/-- evaluate, reverse in place, evaluate again on the same edge (the sequence of the round-2 finding): the second
+    answer has the same count and the reciprocal expansion (start size + ratio, exact branch of the `TOL` switch) -/
+theorem T_C03_history_reverse {L s r : ℚ} {o : Oracle} {res : Vals}
+    (h : calculate T0 L o { start := some s, c2c := some r } = .ok res)
+    (hb : TOL < absR (r - 1)) (hb' : TOL < absR (1 / r - 1)) :
+    ∃ res', (runHistory { start := some s, c2c := some r } [.eval T0 L o, .invert, .eval T0 L o]).2 =
+        [some (.ok res), none, some (.ok res')] ∧
+      res'.count = res.count ∧ res'.total = res.total.map (fun T => 1 / T) := by
+  obtain ⟨res', h1, h2, h3⟩ := T_C03_invert_start_c2c h hb hb'
+  obtain ⟨_, _, e, hn, _, _, _⟩ := pair_start_c2c h
+  obtain ⟨_, _, hr0, _⟩ := countStartC2c_ok hn
+  have hinv : invert { start := some s, c2c := some r } = .ok { end_ := some s, c2c := some (1 / r) } := by
+    unfold invert
+    rw [if_neg (by simp [hr0])]
+    rfl
+  refine ⟨res', ?_, h2, h3⟩
+  simp only [runHistory, hinv, h, h1]
+
+example : (runHistory { start := some (1 / 10), c2c := some (11 / 10) }
+    [.eval T0 1 { count := some 8 }, .invert, .eval T0 1 { count := some 8 }, .invert, .eval T0 2 { count := some 12 }]).2.map
+      (fun r => r.map returned) =
+    [some (some (some 8, some (19487171 / 10000000))), none, some (some (some 8, some (10000000 / 19487171))), none,
+     some (some (some 12, some (285311670611 / 100000000000)))] := by decide +kernel
 
 /-- `Grading.inverted`: divisions in reverse order, same counts (and sum), reciprocal expansion, an involution -/
 theorem T_C03_invert_grading {spec inv : List Division} (h : inverted spec = .ok inv) :
